@@ -313,6 +313,39 @@ def writerOrder (A : Arith α) (es : List (Entry α ν)) : List (Entry α ν) :=
   let s := sortEntriesDesc A es
   s.filter (fun e => !isUnclassified e) ++ s.filter isUnclassified
 
+/-! ### the writers as operations on ONE `QueryTaxResult`: `summarized_lineage_results` is shared, mutable state
+
+`make_full_summary` (csv_summary) sorts every rank's list IN PLACE by fraction, `make_human_summary` sorts the displayed
+rank's list in place by weighted fraction; kreport, bioboxes, krona and lineage_summary read the lists as they find them.
+A session state is the list of per-rank entry lists (highest rank first). -/
+
+def insertEntryDescW (A : Arith α) (x : Entry α ν) : List (Entry α ν) → List (Entry α ν)
+  | [] => [x]
+  | y :: t => if A.lt y.fw x.fw then x :: y :: t else y :: insertEntryDescW A x t
+
+/-- `list.sort(key=lambda res: -res.f_weighted_at_rank)` -/
+def sortEntriesDescW (A : Arith α) (l : List (Entry α ν)) : List (Entry α ν) :=
+  l.foldl (fun acc x => insertEntryDescW A x acc) []
+
+/-- the list `summarized_lineage_results[rank r]` among the per-rank lists (every list holds one rank's entries) -/
+def isRank (r : Nat) (es : List (Entry α ν)) : Bool := es.any (fun e => e.rank = r)
+
+/-- `make_full_summary`: new state (every list sorted by fraction) and the rows written (per rank: classified in
+sorted order, then the unclassified entry) -/
+def sessCsv (A : Arith α) (ess : List (List (Entry α ν))) : List (List (Entry α ν)) × List (Entry α ν) :=
+  let sorted := ess.map (sortEntriesDesc A)
+  (sorted, (sorted.map (fun s => s.filter (fun e => !isUnclassified e) ++ s.filter isUnclassified)).flatten)
+
+/-- `make_human_summary(display_rank)`: the displayed rank's list sorted by weighted fraction, in place -/
+def sessHuman (A : Arith α) (r : Nat) (ess : List (List (Entry α ν))) : List (List (Entry α ν)) × List (Entry α ν) :=
+  let st := ess.map (fun es => if isRank r es then sortEntriesDescW A es else es)
+  (st, (st.filter (isRank r)).flatten)
+
+/-- `format_for_krona` (one query): the rank's list as it stands, re-sorted (stable) by fraction, unclassified last -/
+def sessKrona (A : Arith α) (r : Nat) (ess : List (List (Entry α ν))) : List (Entry α ν) :=
+  writerOrder A ((ess.filter (isRank r)).flatten)
+
+
 end
 
 
@@ -372,22 +405,29 @@ structure KRow where
 
 def rankCodes : List String := ["D", "P", "C", "O", "F", "G", "S"]
 
-/-- `make_kreport_results`: ranks in order (strain has no code and is skipped), the entries of each rank in table
-order, the unclassified remainder reported once (the first one met) -/
+/-- the row of a classified entry / of the unclassified remainder -/
+def kreportRowC (totalBp : Nat) (e : Entry F64.SF String) : KRow :=
+  let bpc := kreportBp e.fw totalBp
+  ⟨fmtDecStr (timesHundred e.fw) 2, bpc, if e.rank = 6 then bpc else 0, rankCodes.getD e.rank "?",
+   (e.lin.getLast?.join).getD ""⟩
+
+def kreportRowU (totalBp : Nat) (e : Entry F64.SF String) : KRow :=
+  let bpc := kreportBp e.fw totalBp
+  ⟨fmtDecStr (timesHundred e.fw) 2, bpc, bpc, "U", "unclassified"⟩
+
+/-- the loop of `make_kreport_results` over the entries in rank order: classified entries are always reported, an
+unclassified entry only if none was reported yet (`continue` otherwise) -/
+def kreportGo (totalBp : Nat) : List (Entry F64.SF String) → Bool → List KRow
+  | [], _ => []
+  | e :: t, seenU =>
+    if e.lin.isEmpty then
+      if seenU then kreportGo totalBp t seenU else kreportRowU totalBp e :: kreportGo totalBp t true
+    else kreportRowC totalBp e :: kreportGo totalBp t seenU
+
+/-- `make_kreport_results`: ranks in order (strain has no code and is skipped), the entries of each rank in the order
+the (shared, possibly re-sorted) list has them, the unclassified remainder reported once (the first one met) -/
 def kreportRows (totalBp : Nat) (ess : List (List (Entry F64.SF String))) : List KRow :=
-  let es := ess.flatten.filter (fun e => e.rank < 7)
-  let rec go (l : List (Entry F64.SF String)) (seenU : Bool) : List KRow :=
-    match l with
-    | [] => []
-    | e :: t =>
-      let bpc := kreportBp e.fw totalBp
-      let pct := fmtDecStr (timesHundred e.fw) 2
-      if e.lin.isEmpty then
-        if seenU then go t seenU else ⟨pct, bpc, bpc, "U", "unclassified"⟩ :: go t true
-      else
-        let name := (e.lin.getLast?.join).getD ""
-        ⟨pct, bpc, if e.rank = 6 then bpc else 0, rankCodes.getD e.rank "?", name⟩ :: go t seenU
-  go es false
+  kreportGo totalBp (ess.flatten.filter (fun e => e.rank < 7)) false
 
 /-! ### identifiers and taxonomy loading (strings) -/
 
